@@ -158,9 +158,11 @@ fn real_main(cli: &Cli) -> Result<ExitCode, Error> {
                     .prefix("jaq")
                     .tempfile_in(location)?;
 
-                last = run(runner, &filter, vars.clone(), inputs, |output| {
+                let run = run(runner, &filter, vars.clone(), inputs, |output| {
                     write(tmp.as_file_mut(), writer, &output)
                 })?;
+                // a file without outputs does not change the last output
+                last = run.or(last);
 
                 // replace the input file with the temporary file
                 std::mem::drop(bytes);
@@ -168,11 +170,13 @@ fn real_main(cli: &Cli) -> Result<ExitCode, Error> {
                 tmp.persist(path).map_err(|e| Error::Io(None, e.into()))?;
                 std::fs::set_permissions(path, perms)?;
             } else {
-                last = with_stdout(|out| {
+                let run = with_stdout(|out| {
                     run(runner, &filter, vars.clone(), inputs, |v| {
                         write(out, writer, &v)
                     })
                 })?;
+                // a file without outputs does not change the last output
+                last = run.or(last);
             }
         }
         last
